@@ -104,13 +104,15 @@ func rpathHistory(out *Out, r *rand.Rand) {
 			c := g.cmd(m, 0)
 			var rev uint64
 			var err error
-			what := ""
+			what, rendered := "", ""
 			switch c.Type {
 			case regattapb.Command_PUT:
 				var resp *regattapb.PutResponse
 				resp, err = at.Put(ctx, &regattapb.PutRequest{Key: c.Kv.Key, Value: c.Kv.Value, PrevKv: c.PrevKvs})
 				if err == nil {
 					rev = resp.Header.Revision
+					// the API response is built from the apply result: previous pair
+					rendered = aResp(&regattapb.ResponseOp{Response: &regattapb.ResponseOp_ResponsePut{ResponsePut: &regattapb.ResponseOp_Put{PrevKv: resp.PrevKv}}})
 				}
 				what = "put"
 			case regattapb.Command_DELETE:
@@ -118,6 +120,7 @@ func rpathHistory(out *Out, r *rand.Rand) {
 				resp, err = at.Delete(ctx, &regattapb.DeleteRangeRequest{Key: c.Kv.Key, RangeEnd: c.RangeEnd, PrevKv: c.PrevKvs, Count: c.Count})
 				if err == nil {
 					rev = resp.Header.Revision
+					rendered = aResp(&regattapb.ResponseOp{Response: &regattapb.ResponseOp_ResponseDeleteRange{ResponseDeleteRange: &regattapb.ResponseOp_DeleteRange{Deleted: resp.Deleted, PrevKvs: resp.PrevKvs}}})
 				}
 				what = "del"
 			case regattapb.Command_TXN:
@@ -129,6 +132,7 @@ func rpathHistory(out *Out, r *rand.Rand) {
 				resp, err = at.Txn(ctx, rq)
 				if err == nil {
 					rev = resp.Header.Revision
+					rendered = fmt.Sprintf("%s %s", b2i(resp.Succeeded), aResps(resp.Responses))
 				}
 				what = "txn"
 			default:
@@ -137,7 +141,7 @@ func rpathHistory(out *Out, r *rand.Rand) {
 			if err != nil {
 				continue // refused by validation before anything was proposed
 			}
-			out.Line("acked "+what, fmt.Sprintf("rev %d", rev))
+			out.Line("acked "+what, fmt.Sprintf("rev %d %s", rev, rendered))
 			out.Count("acked")
 		case k < 5:
 			nh.catchUp(1 + r.Intn(3))
